@@ -43,6 +43,26 @@ def domain(width):
         b = D.atom("beta", "str", None, "mnist")
         b["doc"] = exact(w - 44 + delta, "q")
         irs.append(("w.fine%d" % delta, D.make_ir([("alpha", a), ("beta", b)], None, summary="Summary.")))
+    # type strings whose ':type name: ```T```' / ':rtype: ```T```' line lands just below, at and just above the width (at indent levels 0..2)
+    def exact_typ(n):
+        opts = []
+        while len("Literal[%s]" % ", ".join(opts + ["'o%02d'" % len(opts)])) <= n:
+            opts.append("'o%02d'" % len(opts))
+        t = "Literal[%s]" % ", ".join(opts)
+        if len(t) < n and opts:
+            opts[-1] = opts[-1][:-1] + "x" * (n - len(t)) + "'"
+            t = "Literal[%s]" % ", ".join(opts)
+        return t
+
+    for delta in range(0, 32):
+        typ = exact_typ(max(14, w - 46 + delta))
+        a = D.atom("alpha", typ, "the alpha", D.ABSENT)
+        irs.append(("w.typ%d" % delta, D.make_ir([("alpha", a)], {"typ": typ, "doc": "the result"} if delta % 2 else None, summary="Summary.")))
+    # free-standing dashes and hyphenated words in prose that wraps (a line may end on the dash)
+    for delta in range(0, 24, 2):
+        a = D.atom("alpha", "int", None, D.ABSENT)
+        a["doc"] = exact(w - 30 + delta, "p") + " - otherwise they are ignored - and a well-known trade-off is made"
+        irs.append(("w.dash%d" % delta, D.make_ir([("alpha", a)], None, summary="Summary.")))
     # the default sentence in the MIDDLE of the prose (what a hand-written docstring looks like): the break may fall right after its full stop
     for delta in range(0, 30, 2):
         a = D.atom("alpha", "int", None, 4)
@@ -65,10 +85,13 @@ def main():
         res["import_error"] = "%s: %s" % (type(e).__name__, e)
         print(json.dumps(res))
         return
+    variants = [(k, {}) for k in R.KINDS] + [("function", {"inline_types": False}), ("method", {"inline_types": False})]  # types written in the docstring too
     for label, ir in domain(int(width) if width else None):
-        for kind in R.KINDS:
-            o_w = dict(R.default_opts(kind), word_wrap=True)
-            o_n = dict(R.default_opts(kind), word_wrap=False)
+        for kind, extra in variants:
+            if extra and not label.startswith(("w.typ", "w.fine", "w.s0")):
+                continue
+            o_w = dict(R.default_opts(kind), word_wrap=True, **extra)
+            o_n = dict(R.default_opts(kind), word_wrap=False, **extra)
             res["cases"] += 1
             try:
                 a_w = R.emit_artifact(kind, ir, o_w)
@@ -86,9 +109,13 @@ def main():
                     res["fails"].append({"label": label, "kind": kind, "path": "<exception>", "want": e_n, "got": e_w, "wrapped_changed": changed})
                 continue
             for d in R.diff_ir(out_n, out_w, "wrap", None):
-                if d["path"].endswith(".typ") and isinstance(d["want"], str) and isinstance(d["got"], str) and "".join(d["want"].split()) == "".join(d["got"].split()):
-                    continue
-                d.update(label=label, kind=kind, wrapped_changed=changed)
+                if d["path"].endswith(".typ") and isinstance(d["want"], str) and isinstance(d["got"], str):
+                    # the length of the text the type is written in (':type name: ```T```', without the docstring's indentation - that is what the
+                    # emitters measure against the width): whether a break was unavoidable on the unchanged tree
+                    name = d["path"].split(".")[1] if d["path"].startswith("params.") else ""
+                    d["type_line_len"] = len(d["want"]) + (len(":type %s: ``````" % name) if name else len(":rtype: ``````"))
+                    d["typ_ws_only"] = "".join(d["want"].split()) == "".join(d["got"].split())
+                d.update(label=label, kind=kind + ("+doc-types" if extra else ""), wrapped_changed=changed)
                 d["want"], d["got"] = repr(d["want"])[:160], repr(d["got"])[:160]
                 res["fails"].append(d)
     print(json.dumps(res))
